@@ -3,7 +3,7 @@ From Coq Require Import String List Bool Arith.
 From TS Require Import Model.Str Model.Outcome Model.Unicode Model.Syntax Model.Attrs Model.Types Model.Parse Model.Lang.Common Model.Lang.Decl.
 From TS Require Import Model.Lang.TypeScript Model.Lang.Kotlin Model.Lang.Swift Model.Lang.Scala Model.Lang.Go Model.Lang.Python.
 From TS Require Import Spec.Serde Spec.C04Spec Spec.C04Readers.
-From TS Require Proofs.FrontTypes Proofs.FrontAttrs Proofs.C04 Proofs.C04_Back.
+From TS Require Proofs.FrontTypes Proofs.FrontAttrs Proofs.C04 Proofs.C04_Back Proofs.C04_Matrix.
 Import ListNotations.
 Local Open Scope nat_scope.
 
@@ -106,3 +106,241 @@ Theorem C04_back_kotlin_field :
                (c04r_seen (kt_c04_member decl pos m)) = true.
 Proof. exact Proofs.C04_Back.kt_field_good. Qed.
 Print Assumptions C04_back_kotlin_field.
+
+Theorem C04_back_kotlin_payload :
+  forall (cfg : kt_config) sh t vsh v,
+    kt_variant_of cfg sh (VTuple t vsh) = Ok v ->
+    exists x y, kv_payload v = KTPNewtype x /\ kt_texp cfg (egenerics sh) (Proofs.C04.c04_strip t) = Ok y /\
+      forall decl member, good_C04 Kotlin (Proofs.C04_Back.c04_expect_of C04Payload t false (kt_show y))
+                                   (c04r_seen (c04_typed kt_show decl member C04Payload x)) = true.
+Proof. exact Proofs.C04_Back.kt_payload_good. Qed.
+Print Assumptions C04_back_kotlin_payload.
+
+Theorem C04_back_kotlin_alias :
+  forall (cfg : kt_config) a d,
+    kt_is_inline (adecs a) = false -> kt_alias_decl cfg a = Ok d ->
+    exists x y, kt_c04_rows d = [c04_typed kt_show (kt_prefix cfg ++ original (aid a)) [] C04Alias x] /\
+      kt_texp cfg (agenerics a) (Proofs.C04.c04_strip (atype a)) = Ok y /\
+      good_C04 Kotlin (Proofs.C04_Back.c04_expect_of C04Alias (atype a) false (kt_show y))
+               (c04r_seen (c04_typed kt_show (kt_prefix cfg ++ original (aid a)) [] C04Alias x)) = true.
+Proof. exact Proofs.C04_Back.kt_alias_good. Qed.
+Print Assumptions C04_back_kotlin_alias.
+
+(* Scala: `x: Option[T] = None` iff Option - outside the recorded class C04-scala-default
+   (bare default on a non-Option field is written `T = _`) *)
+Theorem C04_back_scala_field :
+  forall (cfg : sc_config) f g m decl pos,
+    c04_fieldlike pos = true -> type_override f Scala = None ->
+    sc_member_of cfg g f = Ok m ->
+    exists y, sc_texp cfg g (Proofs.C04.c04_strip (fty f)) = Ok y /\
+      (known_C04 Scala (Proofs.C04_Back.c04_expect_of pos (fty f) (has_default f) (sc_show y)) = None ->
+       good_C04 Scala (Proofs.C04_Back.c04_expect_of pos (fty f) (has_default f) (sc_show y)) (c04r_seen (sc_c04_member decl m)) = true).
+Proof. exact Proofs.C04_Back.sc_field_good. Qed.
+Print Assumptions C04_back_scala_field.
+
+Theorem C04_back_scala_payload :
+  forall (cfg : sc_config) content e t vsh v,
+    sc_variant_of_algebraic cfg content e (VTuple t vsh) = Ok v ->
+    exists x y, scv_payload v = SCPayTuple (egenerics e) content x /\ sc_texp cfg (egenerics e) (Proofs.C04.c04_strip t) = Ok y /\
+      forall decl member, good_C04 Scala (Proofs.C04_Back.c04_expect_of C04Payload t false (sc_show y))
+                                   (c04r_seen (c04_typed sc_show decl member C04Payload x)) = true.
+Proof. exact Proofs.C04_Back.sc_payload_good. Qed.
+Print Assumptions C04_back_scala_payload.
+
+Theorem C04_back_scala_alias :
+  forall (cfg : sc_config) a ds,
+    sc_decl_of cfg (ItAlias a) = Ok ds ->
+    exists x y, flat_map sc_c04_rows ds = [c04_typed sc_show (original (aid a)) [] C04Alias x] /\
+      sc_texp cfg (agenerics a) (Proofs.C04.c04_strip (atype a)) = Ok y /\
+      good_C04 Scala (Proofs.C04_Back.c04_expect_of C04Alias (atype a) false (sc_show y))
+               (c04r_seen (c04_typed sc_show (original (aid a)) [] C04Alias x)) = true.
+Proof. exact Proofs.C04_Back.sc_alias_good. Qed.
+Print Assumptions C04_back_scala_alias.
+
+Theorem C04_scala_default_refuted :
+  exists m y, type_override Proofs.C04_Matrix.c04w_field Scala = None /\
+    sc_member_of Proofs.C04_Matrix.c04w_sc_cfg [] Proofs.C04_Matrix.c04w_field = Ok m /\
+    sc_texp Proofs.C04_Matrix.c04w_sc_cfg [] (Proofs.C04.c04_strip (fty Proofs.C04_Matrix.c04w_field)) = Ok y /\
+    known_C04 Scala (Proofs.C04_Back.c04_expect_of C04Field (fty Proofs.C04_Matrix.c04w_field) (has_default Proofs.C04_Matrix.c04w_field) (sc_show y)) = Some "C04-scala-default"%string /\
+    good_C04 Scala (Proofs.C04_Back.c04_expect_of C04Field (fty Proofs.C04_Matrix.c04w_field) (has_default Proofs.C04_Matrix.c04w_field) (sc_show y))
+             (c04r_seen (sc_c04_member (lit "S") m)) = false.
+Proof. exact Proofs.C04_Matrix.scala_default_refuted. Qed.
+Print Assumptions C04_scala_default_refuted.
+
+(* TypeScript (hypothesis: the display of an Option type is not itself a type_mappings key):
+   `k?: T` iff Option or default, `| null` iff Option<Option<..>>, the type is the translation of T *)
+Theorem C04_back_typescript_field :
+  forall (cfg : ts_config) f g s m s' decl pos,
+    c04_fieldlike pos = true -> type_override f TypeScript = None ->
+    (is_optional (fty f) = true -> tmap_get (ts_type_mappings cfg) (rtype_display (fty f)) = None) ->
+    ts_member_of cfg g f s = Ok (m, s') ->
+    exists y s2, ts_texp cfg g (Proofs.C04.c04_strip (fty f)) s = Ok (y, s2) /\
+      good_C04 TypeScript (Proofs.C04_Back.c04_expect_of pos (fty f) (has_default f) (ts_show y)) (c04r_seen (ts_c04_member decl pos m)) = true.
+Proof. exact Proofs.C04_Back.ts_field_good. Qed.
+Print Assumptions C04_back_typescript_field.
+
+Theorem C04_back_typescript_payload :
+  forall (cfg : ts_config) g ue t vsh s v s',
+    (is_optional t = true -> tmap_get (ts_type_mappings cfg) (rtype_display t) = None) ->
+    ts_variant_of cfg g ue (VTuple t vsh) s = Ok (v, s') ->
+    exists y, ts_texp cfg g (Proofs.C04.c04_strip t) s = Ok (y, s') /\ v = TVTuple (vcomments vsh) (renamed (vid vsh)) y (is_optional t) /\
+      forall decl, known_C04 TypeScript (Proofs.C04_Back.c04_expect_of C04Payload t false (ts_show y)) = None ->
+        good_C04 TypeScript (Proofs.C04_Back.c04_expect_of C04Payload t false (ts_show y))
+                 (c04r_seen (c04_mk decl (renamed (vid vsh)) C04Payload (is_optional t) (is_optional t) false (ts_show y) (ts_show y))) = true.
+Proof. exact Proofs.C04_Back.ts_payload_good. Qed.
+Print Assumptions C04_back_typescript_payload.
+
+Theorem C04_back_typescript_alias :
+  forall (cfg : ts_config) uc a s d s',
+    (is_optional (atype a) = true -> tmap_get (ts_type_mappings cfg) (rtype_display (atype a)) = None) ->
+    ts_decl_of uc cfg (ItAlias a) s = Ok (d, s') ->
+    exists y, ts_texp cfg (agenerics a) (Proofs.C04.c04_strip (atype a)) s = Ok (y, s') /\
+      ts_c04_rows d = [c04_mk (renamed (aid a)) [] C04Alias (is_optional (atype a)) (is_optional (atype a)) false (ts_show y) (ts_show y)] /\
+      (known_C04 TypeScript (Proofs.C04_Back.c04_expect_of C04Alias (atype a) false (ts_show y)) = None ->
+       good_C04 TypeScript (Proofs.C04_Back.c04_expect_of C04Alias (atype a) false (ts_show y))
+                (c04r_seen (c04_mk (renamed (aid a)) [] C04Alias (is_optional (atype a)) (is_optional (atype a)) false (ts_show y) (ts_show y))) = true).
+Proof. exact Proofs.C04_Back.ts_alias_good. Qed.
+Print Assumptions C04_back_typescript_alias.
+
+(* layout: two members that differ only in the `| null` flag are printed differently, i.e.
+   Option<Option<T>> (`k?: T | null`) stays distinguishable from Option<T> (`k?: T`) in the text *)
+Theorem C04_typescript_double_distinguishable :
+  forall m1 m2 : ts_member,
+    tm_docs m1 = tm_docs m2 -> tm_readonly m1 = tm_readonly m2 -> tm_key m1 = tm_key m2 ->
+    tm_optional m1 = tm_optional m2 -> tm_type m1 = tm_type m2 ->
+    ts_render_member m1 = ts_render_member m2 -> tm_null_union m1 = tm_null_union m2.
+Proof. exact Proofs.C04_Back.ts_double_distinguishable. Qed.
+Print Assumptions C04_typescript_double_distinguishable.
+
+Theorem C04_ts_double_payload_refuted :
+  exists v st, ts_variant_of Proofs.C04_Matrix.c04w_ts_cfg [] false
+                 (VTuple Proofs.C04_Matrix.c04w_double {| vid := Proofs.C04_Matrix.c04m_id (lit "C"); vcomments := [] |}) [] = Ok (v, st) /\
+    known_C04 TypeScript (Proofs.C04_Back.c04_expect_of C04Payload Proofs.C04_Matrix.c04w_double false (lit "string")) = Some "C04-ts-double-nonfield"%string /\
+    exists r, ts_c04_rows (TSUnion [] (lit "E") [] (lit "t") (lit "c") [v]) = [r] /\
+      good_C04 TypeScript (Proofs.C04_Back.c04_expect_of C04Payload Proofs.C04_Matrix.c04w_double false (lit "string")) (c04r_seen r) = false.
+Proof. exact Proofs.C04_Matrix.ts_double_payload_refuted. Qed.
+Print Assumptions C04_ts_double_payload_refuted.
+
+Theorem C04_ts_double_alias_refuted :
+  exists d st r, ts_decl_of uc_exec Proofs.C04_Matrix.c04w_ts_cfg
+                   (ItAlias {| aid := Proofs.C04_Matrix.c04m_id (lit "A"); agenerics := []; atype := Proofs.C04_Matrix.c04w_double;
+                               acomments := []; adecs := []; aredacted := false |}) [] = Ok (d, st) /\
+    ts_c04_rows d = [r] /\
+    known_C04 TypeScript (Proofs.C04_Back.c04_expect_of C04Alias Proofs.C04_Matrix.c04w_double false (lit "string")) = Some "C04-ts-double-nonfield"%string /\
+    good_C04 TypeScript (Proofs.C04_Back.c04_expect_of C04Alias Proofs.C04_Matrix.c04w_double false (lit "string")) (c04r_seen r) = false.
+Proof. exact Proofs.C04_Matrix.ts_double_alias_refuted. Qed.
+Print Assumptions C04_ts_double_alias_refuted.
+
+(* Swift: the stored property AND the init parameter (formatted separately) carry `?` iff Option or default *)
+Theorem C04_back_swift_field :
+  forall (uc : unicode) (cfg : sw_config) f g s ty s' s2 ity s2' decl,
+    type_override f Swift = None ->
+    sw_field_texp cfg g f s = Ok (ty, s') -> sw_field_texp cfg g f s2 = Ok (ity, s2') ->
+    exists y s3 s4, sw_texp cfg g (Proofs.C04.c04_strip (fty f)) s3 = Ok (y, s4) /\
+      good_C04 Swift (Proofs.C04_Back.c04_expect_of C04Field (fty f) (has_default f) (sw_show y))
+               (c04r_seen (sw_c04_member decl (sw_member_of uc f ty ity))) = true.
+Proof. exact Proofs.C04_Back.sw_field_good. Qed.
+Print Assumptions C04_back_swift_field.
+
+Theorem C04_back_swift_payload :
+  forall (uc : unicode) (cfg : sw_config) shared t vsh s v s',
+    sw_variant_of uc cfg shared (VTuple t vsh) s = Ok (v, s') ->
+    exists x esc y s3 s4, swv_payload v = SWPTuple x esc (is_optional t) /\
+      sw_texp cfg (egenerics shared) (Proofs.C04.c04_strip t) s3 = Ok (y, s4) /\
+      forall decl member,
+        good_C04 Swift (Proofs.C04_Back.c04_expect_of C04Payload t false (sw_show y))
+                 (c04r_seen (c04_mk decl member C04Payload (c04_is_xopt x) (is_optional t) false (sw_show (c04_strip_xopt x)) (sw_show x))) = true.
+Proof. exact Proofs.C04_Back.sw_payload_good. Qed.
+Print Assumptions C04_back_swift_payload.
+
+Theorem C04_back_swift_alias :
+  forall (uc : unicode) (cfg : sw_config) a s d s',
+    sw_decl_of uc cfg (ItAlias a) s = Ok (d, s') ->
+    exists x y s3 s4, sw_c04_rows d = [c04_typed sw_show (sw_prefix cfg ++ renamed (aid a)) [] C04Alias x] /\
+      sw_texp cfg (agenerics a) (Proofs.C04.c04_strip (atype a)) s3 = Ok (y, s4) /\
+      good_C04 Swift (Proofs.C04_Back.c04_expect_of C04Alias (atype a) false (sw_show y))
+               (c04r_seen (c04_typed sw_show (sw_prefix cfg ++ renamed (aid a)) [] C04Alias x)) = true.
+Proof. exact Proofs.C04_Back.sw_alias_good. Qed.
+Print Assumptions C04_back_swift_alias.
+
+(* Python: `x: Optional[T] = Field(default=None)` iff Option or default *)
+Theorem C04_back_python_field :
+  forall (uc : unicode) (cfg : py_config) f g s m s' decl,
+    (is_optional (fty f) = true -> tmap_get (py_type_mappings cfg) (rtype_display (fty f)) = None) ->
+    py_member_of uc cfg g f s = Ok (m, s') ->
+    exists y s3 s4, py_texp cfg g (Proofs.C04.c04_strip (fty f)) s3 = Ok (y, s4) /\
+      good_C04 Python (Proofs.C04_Back.c04_expect_of C04Field (fty f) (has_default f) (py_show y)) (c04r_seen (py_c04_member decl m)) = true.
+Proof. exact Proofs.C04_Back.py_field_good. Qed.
+Print Assumptions C04_back_python_field.
+
+Theorem C04_back_python_payload :
+  forall (uc : unicode) (cfg : py_config) en tn sh t vsh s v s',
+    (is_optional t = true -> tmap_get (py_type_mappings cfg) (rtype_display t) = None) ->
+    py_variant_of uc cfg en tn sh (VTuple t vsh) s = Ok (v, s') ->
+    exists x y s3 s4, pyv_content v = PYCType x /\ py_texp cfg (egenerics sh) (Proofs.C04.c04_strip t) s3 = Ok (y, s4) /\
+      forall decl member, good_C04 Python (Proofs.C04_Back.c04_expect_of C04Payload t false (py_show y))
+                                   (c04r_seen (c04_typed py_show decl member C04Payload x)) = true.
+Proof. exact Proofs.C04_Back.py_payload_good. Qed.
+Print Assumptions C04_back_python_payload.
+
+Theorem C04_back_python_alias :
+  forall (uc : unicode) (cfg : py_config) a s ds s',
+    (is_optional (atype a) = true -> tmap_get (py_type_mappings cfg) (rtype_display (atype a)) = None) ->
+    py_decl_of uc cfg (ItAlias a) s = Ok (ds, s') ->
+    exists x y s3 s4, flat_map py_c04_rows ds = [c04_typed py_show (renamed (aid a)) [] C04Alias x] /\
+      py_texp cfg (agenerics a) (Proofs.C04.c04_strip (atype a)) s3 = Ok (y, s4) /\
+      good_C04 Python (Proofs.C04_Back.c04_expect_of C04Alias (atype a) false (py_show y))
+               (c04r_seen (c04_typed py_show (renamed (aid a)) [] C04Alias x)) = true.
+Proof. exact Proofs.C04_Back.py_alias_good. Qed.
+Print Assumptions C04_back_python_alias.
+
+(* Go (hypotheses: no_pointer_slice off; the display of an Option type is not a type_mappings key):
+   alias target `type A *T` iff Option - for every configuration of acronyms *)
+Theorem C04_back_go_alias :
+  forall (uc : unicode) (cfg : go_config), go_no_pointer_slice cfg = false ->
+  forall cs a s ds s',
+    (is_optional (atype a) = true -> tmap_get (go_type_mappings cfg) (rtype_display (atype a)) = None) ->
+    go_decl_of uc cfg cs (ItAlias a) s = Ok (ds, s') ->
+    exists name x y s3 s4, flat_map go_c04_rows ds = [go_c04_typed name [] C04Alias x] /\
+      go_texp cfg [] (Proofs.C04.c04_strip (atype a)) s3 = Ok (y, s4) /\
+      good_C04 Go (Proofs.C04_Back.c04_expect_of C04Alias (atype a) false (go_show y)) (c04r_seen (go_c04_typed name [] C04Alias x)) = true.
+Proof. exact Proofs.C04_Back.go_alias_good. Qed.
+Print Assumptions C04_back_go_alias.
+
+(* PARTIAL: fields and payloads of Go are proved for configurations WITHOUT uppercase_acronyms. Missing: that
+   the textual acronym rewrite of go.rs:579 (applied to the printed type, byte/char arithmetic) never touches
+   the leading `*` - true of the faithful model on every generated case (the matrix below runs with
+   acronyms id, url configured), not proved in general.
+   `X *T` + `,omitempty` iff Option or default. *)
+Theorem C04_back_go_field_partial :
+  forall (uc : unicode) (cfg : go_config), go_no_pointer_slice cfg = false -> go_uppercase_acronyms cfg = [] ->
+  forall f g s m s' decl,
+    type_override f Go = None ->
+    (is_optional (fty f) = true -> tmap_get (go_type_mappings cfg) (rtype_display (fty f)) = None) ->
+    go_member_of uc cfg g f s = Ok (m, s') ->
+    exists y s3 s4, go_texp cfg g (Proofs.C04.c04_strip (fty f)) s3 = Ok (y, s4) /\
+      good_C04 Go (Proofs.C04_Back.c04_expect_of C04Field (fty f) (has_default f) (go_show y)) (c04r_seen (go_c04_member decl m)) = true.
+Proof. exact Proofs.C04_Back.go_field_good. Qed.
+Print Assumptions C04_back_go_field_partial.
+
+Theorem C04_back_go_payload_partial :
+  forall (uc : unicode) (cfg : go_config), go_no_pointer_slice cfg = false -> go_uppercase_acronyms cfg = [] ->
+  forall sh cs sn tag t vsh s v s',
+    (is_optional t = true -> tmap_get (go_type_mappings cfg) (rtype_display t) = None) ->
+    go_variant_of uc cfg sh cs sn tag (VTuple t vsh) s = Ok (v, s') ->
+    exists x p y s3 s4, gv_content v = GCType x p /\ go_texp cfg [] (Proofs.C04.c04_strip t) s3 = Ok (y, s4) /\
+      forall decl member, good_C04 Go (Proofs.C04_Back.c04_expect_of C04Payload t false (go_show y))
+                                   (c04r_seen (go_c04_typed decl member C04Payload x)) = true.
+Proof. exact Proofs.C04_Back.go_payload_good. Qed.
+Print Assumptions C04_back_go_payload_partial.
+
+(* ------------------------------------------------------------------ the finite marker matrix *)
+(* BOUND: 6 languages x 10 base types (String, u32, bool, Vec<String>, Vec<Option<u8>>, HashMap<String,u32>,
+   [u8;3], a user type, a generic instance, a generic parameter) x 18 cells (field and struct-variant field:
+   Option depth 0..2 x has_default; newtype payload and alias target: depth 0..2) = 1080 cells, each run
+   through the whole model pipeline of its back end (prefix OP for Kotlin/Swift, acronyms id/url for Go) and
+   judged against its twin: inside dom_C04; good_C04 outside the recorded classes, NOT good inside them. *)
+Theorem C04_marker_matrix :
+  forallb (fun L => forallb (Proofs.C04_Matrix.c04m_ok L) Proofs.C04_Matrix.c04m_bases) all_langs = true.
+Proof. exact Proofs.C04_Matrix.matrix_closed. Qed.
+Print Assumptions C04_marker_matrix.
